@@ -182,7 +182,24 @@ impl Observer for C07Obs<'_> {
         }
         if due {
             let (mut snap, entries, _) = self.held.take().unwrap();
-            let got = crate::store::guarded(|| snap.iter().collect::<Result<Vec<_>, _>>());
+            // (sometimes a first pass is abandoned after two entries, and a complete pass is always made twice: a
+            // snapshot is a value, iterating it must not use it up)
+            if self.r.chance(1, 3) {
+                let _ = crate::store::guarded(|| snap.iter().take(2).count());
+            }
+            let first = crate::store::guarded(|| snap.iter().collect::<Result<Vec<_>, _>>());
+            let got = match first {
+                Ok(Ok(v1)) => {
+                    let second = crate::store::guarded(|| snap.iter().collect::<Result<Vec<_>, _>>());
+                    match second {
+                        Ok(Ok(v2)) if v2 == v1 => Ok(Ok(v1)),
+                        Ok(Ok(v2)) => return Err(self.viol("held_snapshot_second_pass_differs", format!("the same dump_data() snapshot iterated twice: first pass {} entries, second pass {}", v1.len(), seq::diff_entries(&v2, &v1)), info.step)),
+                        // an error of the second pass is classified like one of the first
+                        other => other,
+                    }
+                }
+                other => other,
+            };
             self.held_iterated += 1;
             // the D7 pattern can also hit a held snapshot; use the same classification
             match got {
